@@ -220,7 +220,11 @@ Definition the_ctx (w : world) : option ctxrec :=
 (* the user's handle on module m: usable iff the user holds a reference *)
 Definition uref_count (w : world) (m : modid) : nat := nth m (w_urefs w) 0.
 
-(* M_MOD_ASSERT *)
+(* mod->ctx: the context object the module holds a reference on (first link of the module object) *)
+Definition ctx_obj_of (w : world) (mr : modrec) : option oid :=
+  match nth_error (w_heap w) (m_obj mr) with Some ob => hd_error (o_links ob) | None => None end.
+
+(* M_MOD_ASSERT: not NULL, not a zombie, and mod->ctx == m_ctx() -- the calling thread owns the module's context *)
 Definition mod_assert (w : world) (m : modid) : option Z :=
   match get_mod w m with
   | None => Some rEINVAL
@@ -228,7 +232,9 @@ Definition mod_assert (w : world) (m : modid) : option Z :=
       if mstate_eqb (m_state mr) MZombie then Some rEACCES else
       match the_ctx w with
       | None => Some rEPERM
-      | Some _ => None
+      | Some c => match ctx_obj_of w mr with
+                  | Some o => if Nat.eqb o (c_obj c) then None else Some rEPERM
+                  | None => Some rEPERM end
       end
   end.
 
